@@ -1,0 +1,22 @@
+//go:build verif
+// +build verif
+
+package table
+
+// VerifBlockData returns the buffer (over its full capacity, not a copy) behind a value of the block cache:
+// a data/index block or a filter block. ok is false for any other value.
+func VerifBlockData(v interface{}) (data []byte, ok bool) {
+	switch b := v.(type) {
+	case *block:
+		if b == nil || b.data == nil {
+			return nil, false
+		}
+		return b.data[:cap(b.data)], true
+	case *filterBlock:
+		if b == nil || b.data == nil {
+			return nil, false
+		}
+		return b.data[:cap(b.data)], true
+	}
+	return nil, false
+}
